@@ -16,7 +16,6 @@ From Verif Require Import Lib.Base Lib.Sx Lib.Err Lib.IO Model.ErrorsPkg.
 From Verif Require Model.Flv.
 From Verif Require Import Gen.Gen_rtmp.
 
-Definition frev {A} (l : list A) : list A := rev_append l [].
 
 (* ============================== generic: read plans ============================== *)
 Inductive rop : Type :=
@@ -199,21 +198,33 @@ Definition rtmp_read_session (hs : bool) (ms : list rmsg) (s : stream) : N * N :
 (* ============================== RTMP write plan ============================== *)
 (* WriteMessage: for each chunk io.Copy(v.w, header) and io.Copy(v.w, payload part) into the
    bufio.Writer, then Flush; the first error ends the operation *)
-Fixpoint bw_copies (sizes : list N) (b : bufw) : option N * bufw :=
-  match sizes with
+Fixpoint bw_copies (pieces : list bytes) (b : bufw) : option N * bufw :=
+  match pieces with
   | [] => (None, b)
-  | n :: t => match bw_copy_bytes (repeat 0%N (N.to_nat n)) b with
+  | p :: t => match bw_copy_bytes p b with
               | (Some e, b') => (Some e, b')
               | (None, b') => bw_copies t b'
               end
   end.
 
-Definition rtmp_write_message (sizes : list N) (b : bufw) : option N * bufw :=
-  match bw_copies sizes b with
+Definition rtmp_write_message (pieces : list bytes) (b : bufw) : option N * bufw :=
+  match bw_copies pieces b with
   | (Some e, b') => (Some e, b')
   | (None, b') => bw_flush b'
   end.
 
+(* messages until the first error: (messages written, error, writer) *)
+Fixpoint rtmp_write_ops (ops : list (list bytes)) (b : bufw) (n : N) : N * option N * bufw :=
+  match ops with
+  | [] => (n, None, b)
+  | o :: t => match rtmp_write_message o b with
+              | (Some e, b') => (n, Some e, b')
+              | (None, b') => rtmp_write_ops t b' (N.succ n)
+              end
+  end.
+
+(* the pieces WriteMessage copies into the bufio.Writer: c0 header, payload part, then c3
+   header, payload part, ...; nothing at all for an empty payload *)
 Fixpoint chunk_sizes (fuel : nat) (h0 h3 cs rem : N) (first : bool) : list N :=
   match fuel with
   | O => []
@@ -228,13 +239,12 @@ Definition msg_write_sizes (cs : N) (m : rmsg) : list N :=
   chunk_sizes (Datatypes.S (N.to_nat (rm_len m / cs))) (bh_len (rm_cid m) + 11 + e)%N
               (bh_len (rm_cid m) + e)%N cs (rm_len m) true.
 
-Fixpoint rtmp_write_msgs (cs : N) (ms : list rmsg) (b : bufw) (n : N) : N * option N * bufw :=
+(* the content of the wire does not matter to the write path: zero bytes of the right sizes *)
+Definition zeros (n : N) : bytes := repeat 0%N (N.to_nat n).
+Fixpoint msgs_write_ops (cs : N) (ms : list rmsg) : list (list bytes) :=
   match ms with
-  | [] => (n, None, b)
-  | m :: t => match rtmp_write_message (msg_write_sizes cs m) b with
-              | (Some e, b') => (n, Some e, b')
-              | (None, b') => rtmp_write_msgs (next_chunk_size cs m) t b' (N.succ n)
-              end
+  | [] => []
+  | m :: t => map zeros (msg_write_sizes cs m) :: msgs_write_ops (next_chunk_size cs m) t
   end.
 
 (* handshake: three io.Copy on the raw transport *)
@@ -251,7 +261,7 @@ Definition rtmp_write_session (hs : bool) (ms : list rmsg) (w : wtr) : N * optio
   let '(n1, e1, w1) := if hs then raw_copies [1; 1536; 1536]%N w 0%N else (0%N, None, w) in
   match e1 with
   | Some e => (n1, Some e, w1)
-  | None => let '(n2, e2, b) := rtmp_write_msgs DEFCHUNK ms (bufw_new w1) n1 in
+  | None => let '(n2, e2, b) := rtmp_write_ops (msgs_write_ops DEFCHUNK ms) (bufw_new w1) n1 in
             (n2, e2, bw_under b)
   end.
 
